@@ -36,9 +36,11 @@ ASSUMPTIONS = [
 BUDGET = {"quick": {"examples": 6000, "seconds": 70}, "thorough": {"examples": 200000, "seconds": 1500}}
 LABEL_FLOORS = {"quick": {"evaluated": 2500, "derivative": 500, "tensor-valued": 600, "conditional": 300}}
 
-OPS = {"arith", "math", "cond", "index", "tensor", "compound", "deriv", "pow", "abs", "var", "sign", "math2", "bessel"}
+OPS = {"arith", "math", "cond", "index", "tensor", "compound", "deriv", "pow", "abs", "var", "sign", "math2", "bessel",
+       "guarded"}
+# three index names only: the same Index object is re-used in nested summation / component-tensor scopes
 PROFILE = Profile(ops=OPS, leaves={"coef", "const", "lit", "x", "zero", "eye"}, max_rank=2, elements="lagrange",
-                  manifolds=False)
+                  manifolds=False, nindex=3, weights={"comp": 4, "contract": 4, "mul": 4, "cond": 3, "indexfree": 3})
 PDEG = 3
 
 
@@ -141,8 +143,11 @@ def check_case(case):
             msg = str(ex)
             if "Symbolic evaluation of" in msg or "not available" in msg:
                 return {"nontrivial": False, "labels": ["unsupported:" + msg[:60]]}
-            if isinstance(ex, (ZeroDivisionError, OverflowError)) or "math domain" in msg:
-                raise Discard("illcond:python-math")
+            if isinstance(ex, OverflowError):
+                raise Discard("illcond:python-overflow")
+            # (the interpreter found a finite, well-conditioned value evaluating only what the expression's
+            #  semantics require -- e.g. only the selected branch of a conditional -- so a domain error here means
+            #  ufl evaluated something the mathematical value does not depend on)
             raise Violation(f"evaluation raised {type(ex).__name__}: {msg[:300]}", {"kind": "raised:" + exc_bucket(ex)})
         except Exception as ex:
             raise Violation(f"evaluation raised {type(ex).__name__}: {str(ex)[:300]}", {"kind": "raised:" + exc_bucket(ex)})
